@@ -28,10 +28,12 @@ GLOBAL_TRUSTED = [
 
 
 def load_findings():
-    p = os.path.join(VERIF, "known_findings.json")
-    if not os.path.exists(p):
-        return []
-    return json.load(open(p))["findings"]
+    d = os.path.join(VERIF, "known_findings")
+    out = []
+    for f in sorted(os.listdir(d)) if os.path.isdir(d) else []:
+        if f.endswith(".json"):
+            out += json.load(open(os.path.join(d, f)))["findings"]
+    return out
 
 
 def run_impl(stage, modname, cases, ext, workers=1):
@@ -144,7 +146,7 @@ def evaluate(mod, stage, cases, driver_ok, want_model=True, impl_workers=4):
                     spans.append((len(calls), len(cl)))
                     calls += cl
             try:
-                outs = model.run_driver(calls) if calls else []
+                outs = model.run_driver(mod.ID, calls) if calls else []
             except Exception as e:  # noqa
                 res["errors"].append(str(e))
                 continue
@@ -204,7 +206,7 @@ def main(argv=None):
         proof = coq_props(mod)
         theorems = model.theorems_of(mod.PROPS)
         # model driver
-        driver_ok, drv_out = model.build_driver()
+        driver_ok, drv_out = model.build_driver(mod.ID)
         tie_broken = []
         for f, msg in gen_errors:
             tie_broken.append(f"translator: {f}: {msg}")
@@ -234,8 +236,8 @@ def main(argv=None):
             sub = sub[:300]
             if sub:
                 try:
-                    a = model.run_vm(sub, pid)
-                    b = model.run_driver(sub)
+                    a = model.run_vm(pid, sub)
+                    b = model.run_driver(pid, sub)
                     vm_checked = len(sub)
                     if a != b:
                         j = next(k for k in range(len(sub)) if a[k] != b[k])
@@ -328,7 +330,7 @@ def do_replay(mod, stage, path):
         return 1
     c = rp["case"]
     gen.generate()
-    driver_ok, _ = model.build_driver()
+    driver_ok, _ = model.build_driver(mod.ID)
     res = evaluate(mod, stage, [c], driver_ok)
     print(json.dumps({"impl": {b: r for b, (s, r) in res["impl"].items()}, "model": res["model"],
                       "violations": res["violations"], "known": list(res["known"])}, indent=1, default=str))
